@@ -347,6 +347,7 @@ func (c *Cache) writeDump(w io.Writer) (int, error) {
 	gw.Name = dumpHeader
 
 	block := new(CacheDumpBlock)
+	blockLen := 0 // approximate encoded length of block
 	writeBlock := func() error {
 		b, err := proto.Marshal(block)
 		if err != nil {
@@ -366,6 +367,7 @@ func (c *Cache) writeDump(w io.Writer) (int, error) {
 
 		en += len(block.GetEntries())
 		block.Reset()
+		blockLen = 0
 		return nil
 	}
 
@@ -386,9 +388,11 @@ func (c *Cache) writeDump(w io.Writer) (int, error) {
 			Msg:                 msg,
 		}
 		block.Entries = append(block.Entries, e)
+		blockLen += proto.Size(e) + 8
 
-		// Block is big enough for a write operation.
-		if len(block.Entries) >= dumpBlockSize {
+		// Block is big enough for a write operation. readDump refuses blocks
+		// longer than dumpMaximumBlockLength, so big entries must not pile up.
+		if len(block.Entries) >= dumpBlockSize || blockLen >= dumpMaximumBlockLength/2 {
 			return writeBlock()
 		}
 		return nil
